@@ -91,6 +91,7 @@ var c13Malformations = []string{
 	"comp-256", "comp-neg", "comp-huge", "pcesvn-65536", "pcesvn-neg", "int-nonminimal", "int-empty",
 	"ppid-short", "ppid-long", "pceid-short", "pceid-long", "fmspc-short", "fmspc-long", "cpusvn-short", "cpusvn-long",
 	"comp-as-octet", "pcesvn-as-octet", "ppid-as-int", "fmspc-as-int", "cpusvn-as-int", "tcb-as-octet",
+	"ppid-wrong-type-right-length", "pceid-wrong-type-right-length", "fmspc-wrong-type-right-length", "cpusvn-wrong-type-right-length",
 	"tcb-17", "tcb-19", "trailing-top", "trailing-inner", "trailing-tcb", "truncated", "no-sgx-ext", "ext-5", "ext-7", "top-3-elements", "top-not-sequence",
 }
 
@@ -174,6 +175,30 @@ func c13Mutate(t *rapid.T, kind string, top *gen.Node, s *gen.Stream) (der []byt
 		tcb.Kids[17].Kids[1] = gen.Octet(oct(15))
 	case "cpusvn-long":
 		tcb.Kids[17].Kids[1] = gen.Octet(oct(17))
+	case "ppid-wrong-type-right-length", "pceid-wrong-type-right-length", "fmspc-wrong-type-right-length", "cpusvn-wrong-type-right-length":
+		// the content has exactly the expected number of bytes, only the ASN.1 type is not OCTET STRING
+		tag := rapid.SampledFrom([]byte{0x0c, 0x13, 0x16, 0x03, 0x02, 0x80, 0x30, 0x05 | 0x40}).Draw(t, "tag")
+		mk := func(n int) *gen.Node {
+			c := s.Bytes(n)
+			c[0] = 0x31 // printable, positive, no unused-bits trouble: the type alone is wrong
+			for i := range c {
+				c[i] = '0' + c[i]%10
+			}
+			if tag == 0x03 {
+				c[0] = 0
+			}
+			return &gen.Node{Tag: tag, Content: c}
+		}
+		switch kind {
+		case "ppid-wrong-type-right-length":
+			top.Kids[0].Kids[1] = mk(16)
+		case "pceid-wrong-type-right-length":
+			top.Kids[2].Kids[1] = mk(2)
+		case "fmspc-wrong-type-right-length":
+			top.Kids[3].Kids[1] = mk(6)
+		default:
+			tcb.Kids[17].Kids[1] = mk(16)
+		}
 	case "comp-as-octet":
 		tcb.Kids[ci].Kids[1] = gen.Octet([]byte{5})
 	case "pcesvn-as-octet":
